@@ -302,7 +302,7 @@ package matcher
 //@ func (*Choices).CheckConflicts
 //@   option pure_funcs yes
 //@   requires p != nil && (forall i in 0..len(p.options) :: p.options[i] != nil) && conflict != nil
-//@   assigns p.stops
+//@   assigns p.stops, allof(Var.Elem)
 //@   at fieldstore stops#1 assert [c29.commit-iff-no-later-conflict] len(stops) == len(p.options) &&
 //@           (forall i in 0..len(stops) :: stops[i] == (forall j in i+1..len(stops) :: !conflictU(firsts[i], firsts[j])))
 //@ loop (*Choices).CheckConflicts#1
